@@ -26,3 +26,24 @@ elab "#audit_module " id:ident : command => do
       count := count + 1
     | _ => pure ()
   IO.println s!"AUDIT-COUNT {modName} {count}"
+
+/-- `#audit_module_ns M NS`: same for theorems of module `M` whose name is `NS.<thm>` (property theorems
+that live in a lemma module because of the import order; listed in the property's audit file). -/
+elab "#audit_module_ns " id:ident ns:ident : command => do
+  let env ← getEnv
+  let modName := id.getId
+  let some idx := env.getModuleIdx? modName
+    | throwError "unknown module {modName}"
+  let names := env.header.moduleData[idx.toNat]!.constNames
+  let mut count := 0
+  for n in names do
+    if n.isInternal then continue
+    if n.getPrefix != ns.getId then continue
+    match env.find? n with
+    | some (.thmInfo _) =>
+      let axs ← liftCoreM (collectAxioms n)
+      let axs := axs.qsort (fun a b => a.toString < b.toString)
+      IO.println s!"AUDIT {n} :: [{", ".intercalate (axs.toList.map toString)}]"
+      count := count + 1
+    | _ => pure ()
+  IO.println s!"AUDIT-COUNT {modName} {count}"
